@@ -124,6 +124,27 @@ class Loose:
 
 
 G_LOOSE = Loose(3)
+
+
+class KeysOnly:
+    """A mapping as far as ``**`` is concerned: it has keys() and item access - and nothing else."""
+
+    def __init__(self, **kw):
+        self._kw = kw
+
+    def keys(self):
+        return list(self._kw)
+
+    def __getitem__(self, key):
+        return self._kw[key]
+
+    def __repr__(self):
+        return "KeysOnly({})".format(", ".join("{}={!r}".format(k, v) for k, v in self._kw.items()))
+
+
+G_KEYS_ONLY = KeysOnly(k=2, extra=1)
+G_FILL = "{"  # (a fill character of a format specification which is a brace)
+G_SPEC = "}<3"
 found = None  # (a module global which some conditions re-bind with an assignment expression)
 y = -77  # (a leftover of a module-level loop: a global named like a loop variable of the generated comprehensions)
 G_STRICT = Strict(3)
@@ -318,6 +339,8 @@ class Gen:
                 parts.append("k={}".format(self.int_leaf()))
             if rng.random() < 0.4:
                 parts.append("**{}".format(self.n("d")))
+            elif rng.random() < 0.3 and not any(p.startswith("k=") for p in parts):
+                parts.append("**G_KEYS_ONLY")
             return "total({})".format(", ".join(parts))
         if k == "pick":
             return "pick({}, {}, default=0)".format(self.list_expr(d + 1), self.int_leaf())
@@ -345,6 +368,10 @@ class Gen:
             a = self.n(rng.choice(["a", "b", "s"]))
             conv = rng.choice(["", "!r", "!s", "!a"])
             spec = rng.choice(["", ":>4", ":<3"]) if not conv or conv in ("!r", "!s") else ""
+            if rng.random() < 0.25:
+                # a format specification which is computed - and happens to hold a brace
+                return rng.choice(["f\"{{{a}:{{G_FILL}}>4}}\"", "f\"<{{{a}!r:{{G_SPEC}}}}>\"", "f\"{{{a}:{{G_FILL}}^{{{w}}}}}\""]).format(
+                    a=self.n(rng.choice(["a", "b"])), w=rng.randint(2, 5))
             return "f\"v={{{}{}{}}}/{{{}}}\"".format(a, conv, spec, self.n(rng.choice(["a", "s"])))
         if k == "slice":
             return "{}[{}:{}]".format(self.n("s"), rng.choice(["", "0", "1"]), rng.choice(["", "2", "-1"]))
@@ -399,7 +426,7 @@ class Gen:
         if d >= self.max_depth:
             return "{} {} {}".format(self.int_leaf(), rng.choice(["<", "<=", ">", ">=", "==", "!="]), self.int_leaf())
         opts = ["cmp", "cmp", "chain", "and", "or", "not", "in_dict", "in_list", "all", "any", "strcmp", "isinst", "truth", "container_eq",
-                "all_value", "builtin_const", "walrus_over_global", "loose_chain"]
+                "all_value", "builtin_const", "walrus_over_global", "loose_chain", "walrus_in_comprehension"]
         if self.env.with_none:
             opts += ["none_guard", "is_none"]
         if rng.random() < self.guarded_bias:
@@ -417,6 +444,19 @@ class Gen:
             return rng.choice(["({i} is not NotImplemented and {b})", "({xs} is not Ellipsis and {b})", "((__debug__ or not __debug__) and {b})",
                                "({i} != NotImplemented and {b})", "({xs} is Ellipsis or {b})"]).format(
                                    i=self.int_expr(d + 1), xs=self.list_expr(d + 1), b=self.bool_expr(d + 1))
+        if k == "walrus_in_comprehension" and self.has("walrus") and self.has("comprehension") and d <= 1 and self.env.can_use("len") \
+                and self.env.can_use("any") and "x" not in self.env.shadowed_builtins:
+            # an assignment expression inside a comprehension binds in the scope of the condition itself: what is read afterwards is the
+            # value of the last iteration that ran
+            self.env.walrus_n += 1
+            t = rng.choice(["([(w{n} := x + {i}) for x in {xs}] and w{n} > {j})",
+                            "(any((w{n} := x) > {i} for x in {xs}) and w{n} + {j} < {i})",
+                            "(len([(w{n} := x * 2) for x in {xs} if x > {i}]) > 0 and abs(w{n}) < {j})",
+                            "(len({{x: (w{n} := x - {i}) for x in {xs}}}) > 0 and twice(w{n}) > {j})",
+                            "((w{n} := 0) == 0 and len([(w{n} := w{n} + x) for x in {xs}]) >= 0 and w{n} > {j})"])
+            if "abs(" in t and not self.env.can_use("abs"):
+                t = "([(w{n} := x + {i}) for x in {xs}] and w{n} > {j})"
+            return t.format(n=self.env.walrus_n, xs=self.list_expr(d + 2), i=self.int_leaf(), j=self.int_leaf())
         if k == "loose_chain":
             # a chain stops at the first comparison whose outcome is falsy - 0, None, "" or [] just as well as False - and that
             # outcome is the value of the chain
